@@ -139,7 +139,7 @@ def pseudo(ctx):
 def statistic(ctx):
     tr = ctx.trace("LinearFourRates", "update", assume={"_drift_state": None, "parallelize": False}, nonnull=NN)
     ssr = A("_samples_since_reset") + const(1)
-    mu = [e for e in tr.mutations("_r_stat") if e.how == "setitem" and e.func.name == "_calculate_rate_bounds"]
+    mu = [e for e in tr.mutations("_r_stat") if e.how == "setitem" and len(e.path) == 2]   # _r_stat[step][rate] = ...
     ctx.anchor("LinearFourRates.update", "statistic stored per rate", len(mu) == 1, "found %d" % len(mu))
     if not mu:
         return
@@ -268,9 +268,19 @@ def wiring(ctx):
     # the loop runs over rates_tracked in both modes
     for par in (False, True):
         t2 = ctx.trace("LinearFourRates", "update", assume={"_drift_state": None, "parallelize": par}, nonnull=NN)
-        cs = [e for e in t2.calls() if e.callee[0] == "closure" and e.callee[1].endswith("_calculate_rate_bounds")]
-        ok = len(cs) == 1 and (cs[0].args[0].single_atom() or ("",))[0] == "iter" and cs[0].args[0].single_atom()[1] == A("rates_tracked")
+        cs = _per_rate_calls(t2)
+        ok = len(cs) == 1
         ctx.ob("TNT-untracked", "LinearFourRates.update", "rates processed are exactly rates_tracked (parallelize=%s)" % par, ok, "")
+
+
+def _per_rate_calls(tr):
+    """calls from update of the per-rate step (a closure, a method or a function of the repository) with the rate of this
+    iteration over rates_tracked among its arguments"""
+    def is_rate(t):
+        a = t.single_atom()
+        return a is not None and a[0] == "iter" and a[1] == A("rates_tracked")
+    return [e for e in tr.calls() if e.d.get("fi") is not None and e.callee[0] in ("closure", "self", "static", "function", "explicit")
+            and len(e.stack) == 1 and any(is_rate(x) for x in list(e.args) + [v for _k, v in (e.d.get("kwargs") or ())])]
 
 
 LEVELS = {"lb_warn": ("warning_level", False), "ub_warn": ("warning_level", True), "lb_detect": ("detect_level", False), "ub_detect": ("detect_level", True)}
@@ -357,7 +367,7 @@ def steps(ctx):
     ssr0 = A("_samples_since_reset")
     ssr = ssr0 + const(1)
     lp = [e for e in tr.of("loop") if q.stack_has(e, U)]
-    first_call = [e for e in tr.calls() if e.callee[0] == "closure" and e.callee[1].endswith("_calculate_rate_bounds")]
+    first_call = _per_rate_calls(tr)
     first_rate_store = [e for a_ in ("_r_stat", "_p_table") for e in tr.mutations(a_) if e.how == "setitem" and len(e.path) == 2]
     barrier = min([e.seq for e in lp + first_call + first_rate_store] or [10 ** 9])
     for attr, kind in (("_r_stat", "copy"), ("_p_table", "copy"), ("_warning_states", "false"), ("_alarm_states", "false")):
